@@ -175,13 +175,20 @@ def run(tier, replay=None):
             raise vlib.ToolError("the worker_cmd hook produced no event (harness not built with --cfg sozu_verif?)")
         vlib.log("replay %s: %d transitions, %d runs, %d requests, %d probes, %d violations, %.1fs" % (
             name, summ["lines"], summ["runs"], summ["requests"], summ["probes"], summ["violations"], summ["wall_s"]))
+        if summ.get("aborted"):
+            exhaustive = False
         total_runs += summ["runs"]
         total_lines += summ["lines"]
         rep.cov["evaluations"] += summ["responses"] + summ["probes"] + summ["hook_events"]
         rep.add_samples(["[%s] %s" % (name, s) for s in summ["samples"][-1:]], 1)
+        seen_classes = set()
         for v in out:
-            if v.get("kind") == "violation":
-                rep.violation(v["class"], "[%s] %s" % (name, json.dumps(v["detail"])[:230]), json.dumps(v["line"]) + "\n",
+            if v.get("kind") == "violation" and v["class"] not in seen_classes:
+                # one replay file (a single generator line) per family and class
+                seen_classes.add(v["class"])
+                n_class = summ["classes"].get(v["class"], 1)
+                rep.violation(v["class"], "[%s, %d occurrence(s)] %s" % (name, n_class, json.dumps(v["detail"])[:210]),
+                              json.dumps(v["line"]) + "\n",
                               name="violation_%s_%s.ndjson" % (name, v["class"].replace(":", "_").replace("/", "_")))
 
     # ---- 4. I->S
